@@ -33,9 +33,12 @@ pub fn set_theory(t: Theory) {
     THEORY.with(|c| *c.borrow_mut() = t);
 }
 pub fn init_solver(timeout_ms: u64) {
+    init_solver_named("z3", timeout_ms)
+}
+pub fn init_solver_named(which: &str, timeout_ms: u64) {
     SOLVER.with(|s| {
         if s.borrow().is_none() {
-            *s.borrow_mut() = Some(Solver::spawn("z3", timeout_ms));
+            *s.borrow_mut() = Some(Solver::spawn(which, timeout_ms));
         }
     });
 }
